@@ -508,6 +508,12 @@ def check(prop, tier):
         if cfg["race"]:
             env["GORACE"] = "log_path=%s halt_on_error=0 exitcode=0 history_size=4" % os.path.join(outdir, "race.replay")
         r = run([binary, "-mode", "replay", "-file", path], env=env, capture_output=True, text=True, cwd=outdir)
+        if r.returncode != 1 and v.get("native_fallback"):
+            # observed by a worker under real goroutine scheduling (native fallback): the observation itself
+            # (race report / wrong result / goroutines blocked for 15 s) is the evidence; replay is statistical
+            new_viol.append((k, path, v, "REPLAY: not reproduced in this attempt (native fallback: schedules are not replayable); observed by the worker:\n  "
+                             + (v["violation"].get("detail") or "")[:1500].replace("\n", "\n  ")))
+            continue
         if r.returncode == 1:
             new_viol.append((k, path, v, "\n".join(l for l in r.stdout.strip().splitlines() if not l.startswith("REPLAY-PHASE"))))
         else:
@@ -549,8 +555,9 @@ def check(prop, tier):
 
     for k, desc in findings:
         print("KNOWN-FINDING: property=%s %s %s%s" % (prop, k, desc, "" if k in observed_known else " (not exercised in this run)"), flush=True)
-    print("explored: %d executions, %d distinct non-trivial, %.0f/h; faults=%s" % (
-        coverage["evaluations"], coverage["distinct_nontrivial"], coverage["runs_per_hour"], json.dumps(coverage["fault_kinds"], sort_keys=True)), flush=True)
+    print("explored: %d executions, %d distinct non-trivial, %.0f/h; faults=%s%s" % (
+        coverage["evaluations"], coverage["distinct_nontrivial"], coverage["runs_per_hour"], json.dumps(coverage["fault_kinds"], sort_keys=True),
+        "" if not cfg["race"] else ("; scheduler=" + ("deterministic" if not (report.get("unmodelled") or []) else "NATIVE-FALLBACK"))), flush=True)
     if new_viol:
         for k, path, v, out in new_viol:
             print(out)
